@@ -40,6 +40,13 @@ theorem safe_wna_move (d : Dim) (num : Nat) : (wnaMoveCase d num).Safe := by
 
 example : wnaMotionValid .three 6 := rfl
 
+/-- Any number of `getNoiseSample(n)` / `motion` calls on ONE model, with `n` going up and down: every call returns /
+    adds a `state size × n` sample (the buffer is local to the call and sized by the request). -/
+theorem safe_wna_call_sequence (d : Dim) (nums : List Nat) : (wnaSeqCase d nums).Safe := by
+  unfold wnaSeqCase
+  simp only [safe_bind, val_bind, safe_pure, and_true]
+  exact ⟨safe_wna_ctor d, wnaSeq_fold_safe d nums []⟩
+
 /-! ## LinearModel -/
 
 /-- Whatever the component list and the covariance passed to the constructor: it either throws or builds a
@@ -59,6 +66,17 @@ theorem safe_linear_model (n rr rc num : Nat) (comps : List Nat) : (lmCase n rr 
       rw [List.getElem?_eq_getElem hi]
       exact h2 _ (List.getElem_mem hi)
     · simp
+
+theorem safe_linear_model_call_sequence (n : Nat) (comps nums : List Nat) : (lmSeqCase n comps nums).Safe := by
+  unfold lmSeqCase
+  have hl := lmCtor_safe n comps ⟨comps.length, comps.length⟩
+  simp only [safe_bind, val_bind, hl, true_and]
+  cases hm : (lmCtor n comps ⟨comps.length, comps.length⟩).val with
+  | none => simp
+  | some m =>
+    obtain ⟨_, m2, m3, _⟩ := lmCtor_some _ _ _ _ hm
+    simp only [safe_bind, safe_pure, and_true]
+    exact lmSeq_fold_safe m (by simp [m2, m3]) nums []
 
 /-- a constructed model draws `measured components × num` noise samples -/
 theorem linear_model_noise_shape (n rr rc num : Nat) (comps : List Nat) (toks : List String)
@@ -203,9 +221,28 @@ theorem safe_sigma_point (K : Nat) (L : Layout) (h : spValid K L) : (spCase K L)
   simp only [safe_bind, safe_pure, and_true]
   exact ⟨mkGM_safe K L (Or.inl hK), sigmaPoint_safe L K hd⟩
 
+/-- The precondition is also necessary: with at least one component, a 0-dimensional mixture makes `jacobiSvd` reject
+    the empty covariance block (the correspondence observes exactly this abort). -/
+theorem sigma_point_safe_iff (K : Nat) (L : Layout) : (sigmaPoint L K).Safe ↔ (K = 0 ∨ 1 ≤ L.dcov) := by
+  constructor
+  · intro h
+    rcases Nat.eq_zero_or_pos K with h0 | h0
+    · exact Or.inl h0
+    · right
+      simp only [sigmaPoint, safe_bind, safe_forRange, gmCov, middleCols, nonEmpty, safe_mk_cons, Cond.holds, val_bind] at h
+      have := (h.1 0 h0).2.1.1
+      exact this
+  · rintro (h | h)
+    · subst h; simp [sigmaPoint]
+    · exact sigmaPoint_safe L K h
+
 /-- … and returns `dim × (2·dim_covariance + 1)·components` sigma points. -/
 theorem sigma_point_shape (K : Nat) (L : Layout) : (sigmaPoint L K).val = ⟨L.dim, (L.dcov * 2 + 1) * K⟩ :=
   sigmaPoint_val L K
+
+/-- the unscented weights for any number of degrees of freedom (0 included): `2n + 1` entries, all written in range -/
+theorem safe_unscented_weights (dof : Nat) : (utwCase dof).Safe ∧ (utwCase dof).val = some [toString (utWeightSize dof), toString (utWeightSize dof)] := by
+  simp [utwCase, unscentedWeights, utWeightSize]
 
 /-- The generic transform, for every input layout (incl. noise-augmented, quaternion) and every output description. -/
 theorem safe_unscented_transform (K : Nat) (I : Layout) (wdof : Nat) (O : Layout) (prows dcols : Nat) (fvalid : Bool)
@@ -288,6 +325,19 @@ theorem safe_ukf_correct_partial (additive : Bool) (I : Layout) (K : Nat) (C : L
   unfold ukfCase
   simp only [safe_bind, safe_pure, and_true]
   exact ukfCorrect_safe additive I K C cK M h hs
+
+/-- Any number of successive `correct()` / `getLikelihood()` calls on ONE UKFCorrection object, each call with its own
+    component count and its own subset of failing model calls (after fix 5117f2c a failed correction no longer leaves the
+    innovations of an earlier success paired with the mixture of the failed transform). -/
+theorem safe_ukf_call_sequence_partial (additive : Bool) (I : Layout) (M : MMod) (steps : List CStep)
+    (h : ukfSeqValid additive I M steps) (hs : ukfSupported I M) : (ukfSeqCase additive I M steps).Safe := by
+  unfold ukfSeqCase
+  simp only [safe_bind, safe_pure, and_true]
+  exact ukfSeq_safe additive I M hs steps UKFMem.init h
+
+/-- the defect fixed by 5117f2c as the model sees it: WITHOUT the reset, success (2 components) followed by a failed
+    prediction leaves 2 innovation columns and a 1-component default mixture, and `getLikelihood()` addresses `covariance(1)` -/
+example : ¬ (gaussLikelihood "UKFCorrection" ⟨2, 2⟩ UTRes.failed.O UTRes.failed.K).Safe := by decide
 
 /-- witness: 1 linear + 1 quaternion state, 2 linear measurements, additive model — all shapes as declared -/
 def ukfQuatStateWitness : MMod := ⟨⟨1, 1, true, 2⟩, ⟨2, 0, false, 0⟩, 2, 0, 2, 2, 2, true, true, true⟩
